@@ -322,6 +322,34 @@ def judge_patch(job):
                     out['samples'].append({'patch': lines, 'equivalent': S.render_def(equiv[-1])})
             finally:
                 shutil.rmtree(res.outdir, ignore_errors=True)
+        # two inputs of one run that both define a message of the patched name: each gets the rules, as when compiled alone
+        import os
+        two = {'a.xml': '<xml><struct name="X"><member name="n" type="u32"/><member name="b" type="u16"/></struct></xml>',
+               'b.xml': '<xml><struct name="X"><member name="n" type="u32"/><member name="k" type="u8"/><member name="b" type="u16"/></struct></xml>'}
+        for lines in (['X static b 3'], ['X insert 0 z u8', 'X rename b c'], ['X type b u64']):
+            def build(names):
+                d = T.fresh_dir('c17p')
+                for fn in names:
+                    with open(os.path.join(d, fn), 'w') as f:
+                        f.write(two[fn])
+                with open(os.path.join(d, 'p.txt'), 'w') as f:
+                    f.write('\n'.join(lines) + '\n')
+                r = T.run_prophyc(['--isar', '--python_out', d, '-p', os.path.join(d, 'p.txt')] + [os.path.join(d, fn) for fn in names])
+                texts = dict((fn, open(os.path.join(d, fn[:-4] + '.py')).read()) for fn in names) if r.ok else None
+                shutil.rmtree(d, ignore_errors=True)
+                return r, texts
+            alone = dict((fn, (build([fn])[1] or {}).get(fn)) for fn in sorted(two))
+            for names in (['a.xml', 'b.xml'], ['b.xml', 'a.xml']):
+                out['cases'] += 1
+                r, texts = build(names)
+                art = {'patch_case': True, 'xml': two, 'patch': lines, 'inputs': names}
+                if not r.ok or texts is None or any(v is None for v in alone.values()):
+                    viol('patch-two-inputs-fails|%s' % lines[0].split()[1], dict(art, detail='%s: %s' % (r.exc_type, str(r.exc)[:200])))
+                    continue
+                for fn in names:
+                    if texts[fn] != alone[fn]:
+                        viol('patch-not-applied-to-every-input|%s' % lines[0].split()[1],
+                             dict(art, detail='%s compiled with %s differs from compiling it alone:\n%s' % (fn, names, texts[fn][-400:])))
         for line in ABSENT:
             out['cases'] += 1
             res, xml, patch = compile_isar(PATCH_BASE, extra_patch=[line])
@@ -409,7 +437,8 @@ def run(ctx):
                        'negative; greedy arrays and bytes completed by patch rules), both are compiled, model layouts of every '
                        'type compared and both generated codecs encode every value of V(T); transitions = encodes + type '
                        'comparisons + patch cases (every rule kind: applicable -> equals the prophy equivalent, absent message '
-                       '-> ignored with identical output, inapplicable -> compilation fails).')
+                       '-> ignored with identical output, inapplicable -> compilation fails; two inputs defining the patched name in one '
+                       'run -> each as when compiled alone).')
 
 
 def replay(art):
